@@ -6,7 +6,7 @@ from symx import core, values, driver, loader
 from symx.values import SymStr, sym_string, str_eq_term, ch_eq, ch_in, lift
 from . import common, render_step as RS, C13
 
-RT = LK = UT = PT = None
+RT = LK = UT = PT = REAL_AST = None
 ATTR = values.Domain([ord(c) for c in "${}'\"a b"])
 
 
@@ -18,6 +18,9 @@ def setup():
     C13.setup()
     RT, LK, UT = C13.RT, C13.LK, C13.UT
     PT = common.mako("parsetree")
+    global REAL_AST
+    if not isinstance(PT.ast, types.SimpleNamespace):
+        REAL_AST = PT.ast           # the attribute harnesses replace it by a stub; the rendering harnesses put it back
 
 
 def kernel():
@@ -26,6 +29,7 @@ def kernel():
 
 def h_site(site, hosted):
     def h(p):
+        PT.ast = REAL_AST
         return RS.step(p, RT, LK, UT, site, False, hosted)
     return h
 
@@ -160,8 +164,80 @@ def on_attr(p, r, exc, acc):
     acc.sample(dict(attribute=v.concretize(m), emitted=parsed.concretize(m)))
 
 
+# ------------------------------------------------------------------ defs written in the body of a call with content, reached through `caller`
+CALLDEF_FLAVOURS = {"plain": ("", "i"), "decorated": (' decorator="dec"', "<i>"), "buffered": (' buffered="True"', "i"), "filtered": (' filter="up"', "I"),
+                    "with-argument": ("", "i")}
+CALLDEF_HEAD = """<%!
+    def dec(fn):
+        def decorate(context, *args, **kw):
+            context.write("<"); fn(*args, **kw); context.write(">"); return ""
+        return decorate
+    def up(s):
+        return s.upper()
+%>"""
+
+
+def calldef_source(f):
+    attrs, _out = CALLDEF_FLAVOURS[f["flavour"]]
+    sig, arg = ("x", "'q'") if f["flavour"] == "with-argument" else ("", "")
+    inner = '<%def name="inner(' + sig + ')"' + attrs + ">i</%def>"
+    callee = '<%def name="w()">W[' + "".join("${caller.inner(" + arg + ")}" for _ in range(f["times"])) + "|${caller.body()}]</%def>"
+    if f["form"] == "call-tag":
+        site = '<%call expr="w()">' + inner + "body</%call>"
+    else:
+        site = "<%self:w>" + inner + "body</%self:w>"
+    return CALLDEF_HEAD + callee + "a" + site + "b"
+
+
+def calldef_expected(f):
+    return "aW[" + CALLDEF_FLAVOURS[f["flavour"]][1] * f["times"] + "|body]b"
+
+
+def calldef_run(TPm, f):
+    try:
+        return TPm.Template(calldef_source(f)).render().strip()
+    except Exception as e:
+        return "raised %s: %s" % (type(e).__name__, str(e)[:80])
+
+
+def h_calldef(p):
+    TPm = common.mako("template")
+    PT.ast = REAL_AST
+    f = dict(flavour=list(CALLDEF_FLAVOURS)[p.choose(len(CALLDEF_FLAVOURS), "def_flavour")], times=p.choose(3, "times_called"),
+             form=["call-tag", "namespace-call"][p.choose(2, "form")])
+    return dict(f=f, got=calldef_run(TPm, f))
+
+
+def on_calldef(p, r, exc, acc):
+    if exc is not None:
+        acc.candidate(kind="harness-exception", input=None, detail="%s: %s" % (type(exc).__name__, str(exc)[:200]))
+        return
+    acc.tags["asserted"] += 1
+    acc.vcs += 1
+    want = calldef_expected(r["f"])
+    if r["got"] != want:
+        acc.candidate(kind="def-of-a-call-body", input=dict(calldef=r["f"]), detail="rendered %r, documented %r" % (r["got"], want))
+    acc.sample(dict(r["f"], output=r["got"]))
+
+
+
 def make_replay(c):
     i = c["input"] or {}
+    if "calldef" in i:
+        body_ = """
+sys.path.insert(0, "/verif")
+CASE = __CASE__
+import mako.template as TP
+from props import C05
+f = CASE["calldef"]
+print(C05.calldef_source(f))
+got, want = C05.calldef_run(TP, f), C05.calldef_expected(f)
+print("rendered:", got, "  documented:", want)
+bad = None if got == want else "a def written in the body of a call with content is not reached through caller as written"
+print("VIOLATED: " + bad if bad else "HOLDS")
+sys.exit(1 if bad else 0)
+""".replace("__CASE__", repr(i))
+        return (c["kind"], body_, repr(sorted(i["calldef"].items(), key=str)))
     body = """
 sys.path.insert(0, "/verif")
 CASE = __CASE__
@@ -244,6 +320,8 @@ def run(check, tier):
         jobs.append(("C05-h-" + site, h_site(site, True), on_site, "construct %s inlined in a def that then uses its caller" % site, dict(site=site), ("ran",)))
     for n in range(0, {"quick": 3, "thorough": 5}[tier] + 1):
         jobs.append(("C05-attr-%d" % n, h_attr(n), on_attr, "tag attribute value of %d symbolic characters" % n, dict(chars=n), ("asserted",) if n in (0, 1) else ()))
+    jobs.append(("C05-calldef", h_calldef, on_calldef, "defs written in the body of a call with content (plain / decorated / buffered / filtered / with an "
+                 "argument), called 0-2 times through caller, <%call> and <%ns:def> forms", dict(flavours=list(CALLDEF_FLAVOURS)), ("asserted",)))
     for k in range(len(ATTR_SKELETONS) if tier == "thorough" else 3):
         jobs.append(("C05-attr-mix-%d" % k, h_attr_skeleton(k), on_attr, "tag attribute value %s (? symbolic)" % ATTR_SKELETONS[k],
                      dict(skeleton=ATTR_SKELETONS[k]), ("asserted",)))
